@@ -133,13 +133,17 @@ def parse_leaf(c: str, w: str) -> Any:
     raise ValueError(f"unknown leaf class {c}")
 
 
+# class object -> key of the abstract class table (distinct classes may share their python name)
+KEYOF: dict[int, str] = {}
+
+
 def abs_val(x: Any, depth: int = 0) -> dict:
     if depth > 12:
         return {"t": "leaf", "c": "toodeep", "w": ""}
     if x is None:
         return {"t": "none"}
     if dataclasses.is_dataclass(x) and not isinstance(x, type):
-        return {"t": "obj", "cls": type(x).__name__, "f": {f.name: abs_val(getattr(x, f.name), depth + 1) for f in dataclasses.fields(x)} or []}
+        return {"t": "obj", "cls": KEYOF.get(id(type(x)), type(x).__name__), "f": {f.name: abs_val(getattr(x, f.name), depth + 1) for f in dataclasses.fields(x)} or []}
     if isinstance(x, list):
         return {"t": "list", "items": [abs_val(v, depth + 1) for v in x]}
     if isinstance(x, dict):
@@ -204,6 +208,7 @@ def class_refs(ty: dict) -> set[str]:
 
 
 def build_classes(table: dict) -> dict[str, type]:
+    KEYOF.clear()
     classes: dict[str, type] = {}
     pending = dict(table)
     while pending:
@@ -231,7 +236,9 @@ def build_classes(table: dict) -> dict[str, type]:
                     (),
                     {"key_transform_with_load": {w: p for w, p in pairs}, "key_transform_with_dump": {p: w for w, p in pairs}},
                 )
-            classes[name] = dataclasses.make_dataclass(name, req + opt, namespace=ns)
+            # `pyname`: the class's __qualname__ (same module for all) - two table entries may share it
+            classes[name] = dataclasses.make_dataclass(cd.get("pyname", name), req + opt, namespace=ns)
+            KEYOF[id(classes[name])] = name
             del pending[name]
             progressed = True
         if not progressed:
